@@ -63,6 +63,13 @@ def run(tier):
                 if not (close(got_call, want_call) and close(got_q, want_q)):
                     ck.violation("pairwise covariance value K(u, v) (noise kernels contribute nothing off the data covariance)",
                                  {**ident, "want": want_call, "got": got_call, "want_query": want_q, "got_query": got_q}, site=f"{cname}.__call__")
+                # K(u, v) entry by entry: as many query points as data points (the query rows repeated cyclically) give the rows found above
+                Qn = np.resize(Q, (n, d)) if len(Q) != n else np.vstack([Q, Q])[1:n + 1]
+                rows = [i % len(Q) for i in range(n)] if len(Q) != n else [(i + 1) % len(Q) for i in range(n)]
+                got_qn = np.asarray(cov(Qn, X, theta), dtype=float)
+                if got_qn.shape != (n, n) or not close(got_qn, got_q[rows]) and close(got_q, want_q):
+                    ck.violation("pairwise covariance value K(u, v): each entry depends on its own pair of points only (as many query points as data points)",
+                                 {**ident, "query": Qn, "want": got_q[rows], "got": got_qn}, site=f"{cname}.__call__:same-shape")
                 B = np.asarray(cov.build_covariance(theta), dtype=float)
                 K2, grads = cov.covariance_and_gradients(theta)
                 K2 = np.asarray(K2, dtype=float)
@@ -192,6 +199,20 @@ def run(tier):
                 ck.violation("mean function value (build_mean, mean_and_gradients, __call__ agree with the definition)",
                              {"X": c["X"], "mean": md, "want": want_mx, "build_mean": got_mx, "call_at_queries": got_pts, "want_queries": want_mq},
                              site=f"{mname}.build_mean")
+            # the generic evaluation on SEVERAL points at once (all query points, all data points): one value per point
+            try:
+                arr_q, arr_x = np.asarray(mean(Q, mth), dtype=float), np.asarray(mean(X, mth), dtype=float)
+                if arr_q.ndim == 0 and arr_x.ndim == 0 and md["k"] == "const":       # (a constant mean may answer with the one value)
+                    arr_q, arr_x = np.full(len(Q), float(arr_q)), np.full(len(X), float(arr_x))
+                if arr_q.size == len(Q) and arr_x.size == len(X):                      # (a single point may come back as a scalar)
+                    arr_q, arr_x = arr_q.reshape(-1), arr_x.reshape(-1)
+                if arr_q.shape != (len(Q),) or arr_x.shape != (len(X),) or not (close(arr_q, want_mq, scale=1.0 + float(np.max(np.abs(want_mq)))) and
+                                                                               close(arr_x, want_mx, scale=1.0 + float(np.max(np.abs(want_mx))))):
+                    ck.violation("mean function value (__call__ on an array of points returns the value at each point)",
+                                 {"X": c["X"], "mean": md, "want_queries": want_mq, "got_queries": arr_q, "want_data": want_mx, "got_data": arr_x},
+                                 site=f"{mname}.__call__:array")
+            except Exception as ex:
+                ck.violation("mean function raised when evaluated on an array of points", {"X": c["X"], "mean": md, "error": repr(ex)[:200]}, site=f"{mname}.__call__:array")
             first_ = mean.build_mean(mth)
             keep_ = np.array(first_, dtype=float).copy()
             mean.build_mean(mth + 0.5)
